@@ -58,6 +58,14 @@ Proof.
   - intros b. cbn. apply N.min_0_l.
 Qed.
 
+(** the source's DefaultMaxPayloadSize is the 4 MB of the statement (re-checked whenever
+    gen/GenBody.v changes) *)
+Lemma default_is_spec : default_max_payload = spec_default.
+Proof. reflexivity. Qed.
+
+Lemma norm_spec : forall l, spec_norm l = norm_limit l.
+Proof. intros l. unfold spec_norm, norm_limit. rewrite default_is_spec. reflexivity. Qed.
+
 (** *** generic lemmas *)
 Section Laws.
   Context {B : Type} (blen : B -> Z) (btake : Z -> B -> B) (bnil : B) (beq : B -> B -> bool).
@@ -257,11 +265,11 @@ Section Laws.
     - destruct (fetch lim (srcw resp)); reflexivity.
   Qed.
 
-  Theorem checker_sound : forall cfg req st resp heads,
+  Lemma checker_sound_norm : forall cfg req st resp heads,
     heads_ok (srv cfg req st resp) heads = true ->
-    prop_serve blen btake bnil beq cfg req st resp (obs_of bnil (srv cfg req st resp) heads) = true.
+    prop_serve_with blen btake bnil beq norm_limit cfg req st resp (obs_of bnil (srv cfg req st resp) heads) = true.
   Proof.
-    intros cfg req st resp heads Hh. unfold prop_serve.
+    intros cfg req st resp heads Hh. unfold prop_serve_with.
     destruct (enc_wf (w_enc req) && enc_wf (w_enc resp)) eqn:Ewf; [|reflexivity].
     apply andb_true_iff in Ewf as [Wq Wp]. cbn [negb].
     set (lim := effective (c_path cfg) (c_srv cfg)).
@@ -298,6 +306,14 @@ Section Laws.
         destruct (fetch_short lim req Wq Es Eo') as [[_ E]|[_ [E [Hcl Hd]]]]; rewrite E.
         * reflexivity.
         * rewrite Hcl. reflexivity.
+  Qed.
+
+  Theorem checker_sound : forall cfg req st resp heads,
+    heads_ok (srv cfg req st resp) heads = true ->
+    prop_serve blen btake bnil beq cfg req st resp (obs_of bnil (srv cfg req st resp) heads) = true.
+  Proof.
+    intros cfg req st resp heads Hh. rewrite <- (checker_sound_norm cfg req st resp heads Hh).
+    unfold prop_serve, prop_serve_with. rewrite !norm_spec. reflexivity.
   Qed.
 
   (** *** the clauses, stated directly on [serve] *)
